@@ -2,7 +2,10 @@ package main
 
 import (
 	"fmt"
+	"go/ast"
+	"go/constant"
 	"go/types"
+	"golang.org/x/tools/go/packages"
 	"sort"
 	"strings"
 
@@ -271,6 +274,36 @@ func ruleC17Matrix(c *Ctx) {
 			if published && stateArg {
 				m = hm
 				c.OK(rule, "table computed by "+FnName(h), c.P.InstrPos(in), "NewReplica publishes the keys of "+FnName(h)+"(state)", false)
+			}
+		})
+	}
+	if len(m) < 5 {
+		// table form: `for _, a := range table[state] { actions[a] = true }` over a package-level
+		// map literal state -> []action that nothing else writes
+		R := NewRenderer(fn)
+		eachInstr(fn, func(in ssa.Instruction) {
+			mu, ok := in.(*ssa.MapUpdate)
+			if !ok || len(m) >= 5 {
+				return
+			}
+			// either the intermediate set (actions[a] = true) or the published map itself
+			if !(R.V(mu.Map) == "makemap" && R.V(mu.Value) == "true") && !strings.HasSuffix(R.V(mu.Map), ".Actions") {
+				return
+			}
+			k := R.V(mu.Key)
+			if !strings.HasSuffix(k, "[$1][*]") {
+				return
+			}
+			g := strings.TrimSuffix(strings.TrimPrefix(k, "global:"), "[$1][*]")
+			if tm, ok := globalMapLiteral(c.P, g); ok {
+				m = map[string]map[string]bool{}
+				for st, as := range tm {
+					m[st] = map[string]bool{}
+					for _, a := range as {
+						m[st][a] = true
+					}
+				}
+				c.OK(rule, "table read from the literal of "+g, c.P.InstrPos(in), "NewReplica publishes table[state]; the table is a package-level literal that is never written", false)
 			}
 		})
 	}
@@ -652,4 +685,108 @@ func ruleNilOK(rule string) ruleFn {
 			c.Undecided(rule, "vacuity-floor", "", fmt.Sprintf("only %d pointer results found in the handler region", n))
 		}
 	}
+}
+
+// globalMapLiteral reads a package-level `var T = map[K][]string{ k: {"a", "b"}, ... }` (K a
+// string-kinded constant type) from the syntax; fails when the variable is assigned or its map
+// updated anywhere outside its initialiser.
+func globalMapLiteral(P *Prog, qualified string) (map[string][]string, bool) {
+	i := strings.LastIndex(qualified, ".")
+	if i < 0 {
+		return nil, false
+	}
+	pkgShort, name := qualified[:i], qualified[i+1:]
+	// no writer outside the package initialiser
+	written := false
+	for _, f := range P.AllFns {
+		if strings.HasSuffix(FnName(f), ".init") || strings.Contains(FnName(f), ".init#") {
+			continue
+		}
+		R := NewRenderer(f)
+		eachInstr(f, func(in ssa.Instruction) {
+			switch x := in.(type) {
+			case *ssa.MapUpdate:
+				if mv := R.V(x.Map); mv == qualified || mv == "global:"+qualified || strings.HasPrefix(mv, qualified+"[") {
+					written = true
+				}
+			case *ssa.Call:
+				if b, ok := x.Call.Value.(*ssa.Builtin); ok && b.Name() == "delete" && len(x.Call.Args) > 0 && R.V(x.Call.Args[0]) == qualified {
+					written = true
+				}
+			case *ssa.Store:
+				if g, ok := x.Addr.(*ssa.Global); ok && short(g.String()) == qualified {
+					written = true
+				}
+			}
+		})
+	}
+	if written {
+		return nil, false
+	}
+	var out map[string][]string
+	packages.Visit(P.Pkgs, nil, func(p *packages.Package) {
+		if p.Types == nil || short(p.Types.Path()) != pkgShort {
+			return
+		}
+		for _, file := range p.Syntax {
+			for _, d := range file.Decls {
+				gd, ok := d.(*ast.GenDecl)
+				if !ok {
+					continue
+				}
+				for _, sp := range gd.Specs {
+					vs, ok := sp.(*ast.ValueSpec)
+					if !ok {
+						continue
+					}
+					for k, n := range vs.Names {
+						if n.Name != name || k >= len(vs.Values) {
+							continue
+						}
+						cl, ok := vs.Values[k].(*ast.CompositeLit)
+						if !ok {
+							continue
+						}
+						m := map[string][]string{}
+						good := true
+						for _, e := range cl.Elts {
+							kv, ok := e.(*ast.KeyValueExpr)
+							if !ok {
+								good = false
+								break
+							}
+							tv, ok := p.TypesInfo.Types[kv.Key]
+							if !ok || tv.Value == nil || tv.Value.Kind() != constant.String {
+								good = false
+								break
+							}
+							vl, ok := kv.Value.(*ast.CompositeLit)
+							if !ok {
+								good = false
+								break
+							}
+							key := constant.StringVal(tv.Value)
+							if _, dup := m[key]; dup {
+								good = false
+								break
+							}
+							m[key] = []string{}
+							for _, a := range vl.Elts {
+								av, ok := p.TypesInfo.Types[a]
+								if !ok || av.Value == nil || av.Value.Kind() != constant.String {
+									good = false
+									break
+								}
+								m[key] = append(m[key], constant.StringVal(av.Value))
+							}
+						}
+						if good {
+							out = m
+						}
+					}
+				}
+			}
+		}
+	})
+	return out, out != nil
 }
